@@ -7,6 +7,7 @@ import P0f.Model.SigParse
 import P0f.Model.Wire
 import P0f.Model.Render
 import P0f.Model.Mtu
+import P0f.Model.Http
 /-
   Line-protocol driver: one tab-separated op per input line, one answer line per op.
   Every op is answered by the *model* definitions that the theorems in `P0f/Props` are about.
@@ -77,6 +78,21 @@ def tokOfSopt : SOpt → String
   | .ts a b => s!"T{a}.{b}" | .raw k n => s!"R{k}.{n}"
 
 def soptsOf (s : String) : List SOpt := if s.isEmpty then [] else (s.splitOn ",").map soptOfTok
+
+def hdrsStr (hs : List Hdr) : String :=
+  "[" ++ ",".intercalate (hs.map fun h => hexOfText h.name ++ "=" ++ hexOfText h.value) ++ "]"
+
+def readStr : ReadOut → String
+  | .packetError => "ERR packet"
+  | .indexError => "EXC IndexError"
+  | .ok isReq minor hs => s!"{if isReq then "req" else "resp"} {minor} {hdrsStr hs}"
+
+def optBytesStr : Option Bytes → String
+  | none => "-" | some b => "=" ++ hexOfText b
+
+def httpSigStr (s : HttpSig) : String :=
+  s!"v={optNatStr s.version} h=[{",".intercalate (s.headers.map fun h => (if h.optional then "?" else "") ++ hexOfText h.name ++ optBytesStr h.value)}] " ++
+  s!"absent=[{",".intercalate (s.absent.map hexOfText)}] sw={optBytesStr s.software}"
 
 def handle (f : Array String) : String :=
   match f[0]! with
@@ -167,6 +183,36 @@ def handle (f : Array String) : String :=
       let o := parseOpts bytes true
       let fp := if o.mss > 0 then s!"{o.mss + mtuHdr ver}" else "ERR_packet"
       s!"opts={",".intercalate (out.map tokOfSopt)} same=1 fp={fp}"
+  | "httpread" => readStr (readPayload (parseHexText f[1]!))
+  | "httpall" =>
+    match readPayload (parseHexText f[1]!) with
+    | .ok _ _ _ => "http=ok"
+    | .packetError => "http=ERR_packet"
+    | .indexError => "http=EXC_IndexError"
+  | "sighttp" =>
+    match parseHttpSig (parseHexText f[1]!) with
+    | none => "ERR field"
+    | some s => httpSigStr s
+  | "hmatch" =>
+    match parseHttpSig (parseHexText f[1]!), readPayload (parseHexText f[2]!) with
+    | some s, .ok _ minor hs =>
+      s!"sig={if httpSigMatch s minor hs then 1 else 0} hdr={if headersMatch s.headers hs then 1 else 0}"
+    | none, _ => "ERR field"
+    | _, r => readStr r
+  | "fphttp" =>
+    let nreq := parseNat f[2]!
+    let nresp := parseNat f[3]!
+    let recAt (i : Nat) : Option HttpRec :=
+      (parseHttpSig (parseHexText f[5 + 2 * i]!)).map fun s => { sig := s, generic := parseBool f[4 + 2 * i]!, line := i }
+    let all := (List.range (nreq + nresp)).map recAt
+    if all.any Option.isNone then "ERR sig"
+    else
+      let recs := all.filterMap id
+      match readPayload (parseHexText f[1]!) with
+      | .ok isReq minor hs =>
+        let m := findHttpMatch (if isReq then recs.take nreq else recs.drop nreq) minor hs
+        s!"{if isReq then "req" else "resp"} {minor} match={match m with | none => "none" | some r => toString r.line} dishonest={if dishonest m hs then 1 else 0}"
+      | r => readStr r
   | "printsig" =>
     let b := parseHex f[2]!
     match (if f[1]! == "4" then decodeV4 b else decodeV6 b) with
